@@ -19,7 +19,7 @@ HARN = os.path.join(VERIF, "harness")
 sys.path.insert(0, TOOL)
 
 LIBFLAGS = ["-std=c++11", "-O1", "-fno-vectorize", "-fno-slp-vectorize", "-fno-unroll-loops", "-ffp-contract=off",
-            "-fno-builtin-memcmp", "-fno-rtti", "-fno-exceptions", "-DGRAPHITE2_NTRACING", "-DNDEBUG", "-DGRAPHITE2_STATIC",
+            "-fno-builtin-memcmp", "-gline-tables-only", "-fno-rtti", "-fno-exceptions", "-DGRAPHITE2_NTRACING", "-DNDEBUG", "-DGRAPHITE2_STATIC",
             "-DGRAPHITE2_VERIF", f"-I{REPO}/src", f"-I{REPO}/include"]
 NATIVEFLAGS = ["-std=c++11", "-O1", "-g", "-fno-rtti", "-fno-exceptions", "-DGRAPHITE2_NTRACING", "-DNDEBUG", "-DGRAPHITE2_STATIC",
                "-DGRAPHITE2_VERIF", f"-I{REPO}/src", f"-I{REPO}/include"]
@@ -66,7 +66,7 @@ def build_ll2c():
         if os.path.exists(exe) and os.path.exists(stamp) and open(stamp).read() == h: return exe
         cxx = sh(["llvm-config-14", "--cxxflags"]).stdout.split()
         cxx = [f for f in cxx if not f.startswith("-std=")]
-        ld = sh(["llvm-config-14", "--ldflags", "--libs", "core", "irreader", "support"]).stdout.split()
+        ld = sh(["llvm-config-14", "--ldflags", "--libs", "core", "irreader", "support", "analysis"]).stdout.split()
         sh(["clang++-14", "-O1", "-std=c++17"] + cxx + [src, "-o", exe] + ld)
         open(stamp, "w").write(h)
     return exe
@@ -214,30 +214,35 @@ def build_query(q, cache, ll2c, qdir, witness):
     if q.frozen and not witness: flags.append("--frozen")
     sh([ll2c, oll, "-o", c] + flags)
     gb = os.path.join(qdir, f"m.{tag}.gb")
-    sh(["goto-cc", "-o", gb, c, "--function", q.entry])
+    sh(["goto-cc", "-D__CPROVER__", "-o", gb, c, "--function", q.entry] + ([f"-DLL_OBJBITS={q.objbits}"] if q.objbits else []))
     return gb, c
 
 
-def loop_bounds(q, gb):
-    """Resolve q.unwindset ({regex on loop id or function name: bound}) against the loops of the goto binary."""
+def loop_bounds(q, gb, cfile):
+    """Resolve q.unwindset against the loops of the goto binary.  Keys are regexes matched first against the SOURCE function
+    the loop comes from (ll2c tags every backward goto with the inlined debug scope: 'sf=safe_copy'), then against cbmc's loop id."""
     if not q.unwindset: return [], []
     p = sh(["goto-instrument", "--show-loops", gb], check=False)
-    loops = re.findall(r"^Loop (\S+):", p.stdout, re.M)
-    sets, used = [], set()
-    for lid in loops:
+    loops = re.findall(r"^Loop (\S+):\n\s+file (\S+) line (\d+)", p.stdout, re.M)
+    lines = open(cfile).read().split("\n")
+    sets, info = [], []
+    for lid, _, ln in loops:
+        m = re.search(r"/\*LOOP sf=(\S+) file=(\S+) line=(\d+) depth=(\d+)\*/", lines[int(ln) - 1]) if 0 < int(ln) <= len(lines) else None
+        sf = m.group(1) if m else ""
+        info.append((lid, sf))
         for pat, b in q.unwindset.items():
             if pat.endswith(".recursion"): continue
-            if re.search(pat, lid):
-                sets.append(f"{lid}:{b}"); used.add(pat); break
+            if (sf and re.fullmatch(pat, sf)) or re.search(pat, lid):
+                sets.append(f"{lid}:{b}"); break
     for pat, b in q.unwindset.items():
-        if pat.endswith(".recursion"): sets.append(f"{pat[:-10]}:{b}"); used.add(pat)
-    return sets, loops
+        if pat.endswith(".recursion"): sets.append(f"{pat[:-10]}:{b}")
+    return sets, info
 
 
-def run_cbmc(q, gb, qdir, witness, timeout, memgb):
+def run_cbmc(q, gb, cfile, qdir, witness, timeout, memgb):
     tag = "w" if witness else "m"
     cmd = ["cbmc", gb, "--function", q.entry, "--unwind", str(q.unwind), "--no-malloc-may-fail", "--drop-unused-functions", "--json-ui", "--verbosity", "6"]
-    sets, loops = loop_bounds(q, gb)
+    sets, loops = loop_bounds(q, gb, cfile)
     if sets: cmd += ["--unwindset", ",".join(sets)]
     if witness:
         cmd += ["--no-standard-checks", "--stop-on-fail"]
@@ -387,15 +392,15 @@ def run_query(q, cache, ll2c, pid, tier, keep, timeout, memgb):
     t0 = time.time()
     try:
         gb, cfile = build_query(q, cache, ll2c, qdir, False)
-        gbw, _ = build_query(q, cache, ll2c, qdir, True)
+        gbw, cfilew = build_query(q, cache, ll2c, qdir, True)
     except Exception as e:
         rec.update(verdict="build-error", error=str(e)[-3000:]); return rec
     rec["c_lines"] = sum(1 for _ in open(cfile))
     fns = re.findall(r"^[A-Za-z_][\w \*]*?\b(\w+)\([^;{]*\) \{$", open(cfile).read(), re.M)
     rec["functions_encoded"] = sorted(set(fns))
     with cf.ThreadPoolExecutor(2) as ex:
-        fm = ex.submit(run_cbmc, q, gb, qdir, False, timeout, memgb)
-        fw = ex.submit(run_cbmc, q, gbw, qdir, True, timeout, memgb)
+        fm = ex.submit(run_cbmc, q, gb, cfile, qdir, False, timeout, memgb)
+        fw = ex.submit(run_cbmc, q, gbw, cfilew, qdir, True, timeout, memgb)
         main, wit = fm.result(), fw.result()
     rec["seconds"] = round(time.time() - t0, 2)
     rec["cbmc_s"] = main["seconds"]; rec["witness_s"] = wit["seconds"]
@@ -428,6 +433,8 @@ def run_query(q, cache, ll2c, pid, tier, keep, timeout, memgb):
                 rec["replay"] = {"dir": rdir, "reproduced": rep, "rc": rc, "tail": tail[-1500:], "for": cands[0]["description"], "nvalues": len(vals)}
             except Exception as e:
                 rec["replay"] = {"dir": rdir, "reproduced": False, "error": str(e)[-1500:]}
+    if rec.get("verdict") == "fails" and all(f["kind"] == "unwind" for f in rec["failed"]) and not rec.get("replay", {}).get("reproduced"):
+        rec["verdict"] = "inconclusive"; rec["reason"] = "unwinding bound too small for this code (native replay terminates normally)"
     if not keep:
         for f in glob.glob(os.path.join(qdir, "*.ll")) + glob.glob(os.path.join(qdir, "*.gb")) + glob.glob(os.path.join(qdir, "cbmc.*.json")):
             if rec.get("verdict") in ("holds",): os.remove(f)
